@@ -3,8 +3,9 @@ import ast
 
 from sa.escape import Escape, classes_of
 from . import tsrules
-from .common import (Ctx, T_exact, USER_TOKENS, call_name, calls_in, config_branch, dotted,
-                     eval_bool, node_calls, nodes_calling, norm, own_calls, toks_str, truth_test)
+from .common import (Ctx, T_exact, USER_TOKENS, arg, call_name, calls_in, config_branch, dotted,
+                     eval_bool, local_assignments, node_calls, nodes_calling, norm, own_calls, toks_str,
+                     truth_test)
 
 P = 'C04'
 CHAIN = ['runner.setup_layer', 'runner.run_layer', 'runner.tear_down_unneeded',
@@ -20,6 +21,7 @@ def run(model, rep, tier):
                'callbacks raise EndRun under post-mortem; every other call is assumed not to raise')
     r1_r2_escape(ctx, rep)
     r3_recorder(ctx, rep)
+    errors_chain(ctx, rep, 'C04.R3')
     rep.rule('C04.R4', 'no exception escapes a TestResult callback because of the callback\'s own '
              'state handling, on any sequence of result events (with and without --buffer, several '
              'failures/errors per test, both unittest protocol variants)')
@@ -77,6 +79,19 @@ def r1_r2_escape(ctx, rep, R1='C04.R1', R2='C04.R2'):
                 '(escape sets: %s)' % (sorted(extra), e.describe()),
                 key='run_layer escapes %s' % sorted(extra), func=fi.qualname,
                 where=ctx.where(fi, fi.node), path=_witness(e, 'runner.run_layer', extra))
+            # nothing on the way swallows a setUp exception silently: with post-mortem off every
+            # Exception class a setUp may raise still leaves setup_layer (run_layer's handler, which
+            # is checked below, records it)
+            if not pm:
+                got_s = classes_of(e.tokens('runner.setup_layer'), hier)
+                lost = {'Exception', 'NotImplementedError'} - got_s
+                fs_ = ctx.model.func('runner.setup_layer')
+                rep.check(not lost, R1, 'setup_layer [%s]: what layer.setUp() raises reaches the '
+                          'recording handler in run_layer (%s)' % (cfgtxt, sorted(got_s)),
+                          'an exception of class %s raised by a layer\'s setUp is swallowed inside '
+                          'setup_layer: the layer counts as set up, its tests run and nothing is '
+                          'recorded' % sorted(lost), key='setup_layer swallows %s' % sorted(lost),
+                          func=fs_.qualname, where=ctx.where(fs_, fs_.node))
             # setup failures are recorded: the handler that swallows USER calls handle_layer_failure
             n += 1
             for opt in (False, True):
@@ -153,6 +168,78 @@ def r3_recorder(ctx, rep, R='C04.R3'):
     rep.check(ok and bool(app), R, 'handle_layer_failure appends to its errors list on every path',
               'a path through handle_layer_failure does not record the failure',
               key='handle_layer_failure:append', func=fi.qualname, where=ctx.where(fi, fi.node))
+
+
+def errors_chain(ctx, rep, R):
+    """The list in which a layer failure is recorded is the run's errors accumulator all the way up
+    (handle_layer_failure <- tear_down_unneeded / run_layer <- Runner.run_tests: ``self.errors``):
+    a record made in a list of the function's own is lost when the function is left by an exception
+    (CanNotTearDown after an earlier tearDown of the same pass had failed)."""
+    m = ctx.model
+    rec = m.func('runner.handle_layer_failure')
+    ps = [a.arg for a in rec.node.args.args]
+    tgt = [dotted(c.func.value) for c in own_calls(rec.node) if isinstance(c.func, ast.Attribute)
+           and c.func.attr == 'append' and dotted(c.func.value) in ps]
+    if not tgt:
+        return          # reported by r3_recorder
+    seen = set()
+    n = [0]
+
+    def follow(callee, pname, depth=0):
+        if (callee.qualname, pname) in seen or depth > 6:
+            return
+        seen.add((callee.qualname, pname))
+        names = [a.arg for a in callee.node.args.posonlyargs + callee.node.args.args]
+        off = 1 if names and names[0] in ('self', 'cls') else 0
+        idx = names.index(pname) - off if pname in names else None
+        for fi in m.all_functions():
+            if fi.module is not callee.module:
+                continue
+            for c in own_calls(fi.node):
+                if call_name(c) != callee.name or (isinstance(c.func, ast.Attribute) and
+                                                    dotted(c.func.value) not in ('self',)):
+                    continue
+                if fi is callee and callee.name == fi.name and c in list(own_calls(callee.node)) \
+                        and dotted(arg(c, idx, pname)) == pname:
+                    continue                      # recursive call passing its own parameter
+                a = arg(c, idx, pname)
+                n[0] += 1
+                d = dotted(a) if a is not None else None
+                cps = [x.arg for x in fi.node.args.posonlyargs + fi.node.args.args]
+                if d == 'self.errors':
+                    rep.ok(R, '%s: %s(... %s ...) records in the run\'s errors accumulator' % (
+                        fi.qualname, callee.name, d))
+                elif d in cps and d not in local_assignments(fi.node):
+                    rep.ok(R, '%s: %s(... %s ...) passes its own errors parameter on' % (
+                        fi.qualname, callee.name, d))
+                    follow(fi, d, depth + 1)
+                else:
+                    # a list of the function's own: fine only if the function cannot be left by an
+                    # exception between the record and the hand-over of the list
+                    esc = set()
+                    try:
+                        for pm in (False, True):
+                            e = escape_for(ctx, pm, False)
+                            key = fi.qualname
+                            toks = set()
+                            for k, v in e.summary.items():
+                                if (k if isinstance(k, str) else k[0]) == key:
+                                    toks |= set(v)
+                            esc |= classes_of(toks, ctx.hier) - {'MemoryError'}
+                    except Exception:
+                        esc = {'?'}
+                    if esc:
+                        rep.bad(R, '%s: %s(... %s ...)' % (fi.qualname, callee.name, norm(a) if a is not None else '?'),
+                                'the failure is recorded in %s, which is not the errors list handed down '
+                                'from the Runner; %s can be left by %s, and then the record never reaches '
+                                'the verdict' % (norm(a) if a is not None else 'nothing', fi.name, sorted(esc)),
+                                key='errors-chain:%s' % fi.qualname, where=ctx.where(fi, c), func=fi.qualname)
+                    else:
+                        rep.undecide(R, 'errors-chain:%s' % fi.qualname, 'failures are recorded in %s and '
+                                     'travel by another route than the errors parameter; not followed'
+                                     % (norm(a) if a is not None else '?'))
+    follow(rec, tgt[0])
+    rep.floor(R, n[0], 4, 'links of the errors chain')
 
 
 # ------------------------------------------------------------------------------------------
